@@ -93,11 +93,11 @@ Proof. unfold parse_seqset_db. destruct (total =? 0); reflexivity. Qed.
 
 (** ---- EXPUNGE removes exactly the messages carrying the \Deleted atom ---- *)
 Lemma classify_expunge_none mbox : classify_expunge mbox = None ->
-  forall m, In m mbox -> like_deleted (m_flags m) = has_deleted (m_flags m).
+  forall m, In m mbox -> sql_deleted (m_flags m) = has_deleted (m_flags m).
 Proof.
   unfold classify_expunge. destruct (existsb _ mbox) eqn:E; [discriminate|]. intros _ m Hm.
-  destruct (Bool.eqb (like_deleted (m_flags m)) (has_deleted (m_flags m))) eqn:Q; [now apply eqb_prop|].
-  assert (X : existsb (fun m => negb (Bool.eqb (like_deleted (m_flags m)) (has_deleted (m_flags m)))) mbox = true)
+  destruct (Bool.eqb (sql_deleted (m_flags m)) (has_deleted (m_flags m))) eqn:Q; [now apply eqb_prop|].
+  assert (X : existsb (fun m => negb (Bool.eqb (sql_deleted (m_flags m)) (has_deleted (m_flags m)))) mbox = true)
     by (apply existsb_exists; exists m; split; [exact Hm | now rewrite Q]).
   congruence.
 Qed.
